@@ -417,3 +417,18 @@ MUTANTS += [
   "old": "            else:  # permutation changes the denominator\n                ret[perms] = None",
   "new": "            else:  # permutation changes the denominator\n                ret[perms] = factor"},
 ]
+
+MUTANTS += [
+ {"id": "c04-sroot-no-class-weight", "prop": "C04", "file": _IS,
+  "old": "                i1 = pref * sum_pref ** (len(term) - 1)",
+  "new": "                i1 = pref"},
+ {"id": "c04-sroot-weight-per-factor", "prop": "C04", "file": _IS,
+  "old": "                i1 = pref * sum_pref ** (len(term) - 1)",
+  "new": "                i1 = pref * sum_pref ** len(term)"},
+ {"id": "c04-sroot-chain-broken", "prop": "C04", "file": _IS,
+  "old": "                        order=o, block=block, indices=tuple(relevant_idx[:2])\n                    )\n                    del relevant_idx[0]",
+  "new": "                        order=o, block=block, indices=tuple(relevant_idx[:2])\n                    )"},
+ {"id": "c04-sroot-min-order", "prop": "C04", "file": _IS,
+  "old": "        taylor_expansion = self.expand_S_taylor(order, min_order=2)\n        # create an index list",
+  "new": "        taylor_expansion = self.expand_S_taylor(order, min_order=1)\n        # create an index list"},
+]
